@@ -5,7 +5,7 @@
    slot, no release of a block that still holds items), the ledger afterwards holds exactly the object's buffers with
    exactly the slots its counters imply constructed, and the destructor leaves the ledger empty. *)
 From Coq Require Import ZArith NArith List Bool Lia.
-From DS Require Import RunnerLib LedgerCore LedgerCoreProofs LedgerKll LedgerKllProofs LedgerTup LedgerTupProofs LedgerFi LedgerFiProofs LedgerReq LedgerReqProofs LedgerVo LedgerVoProofs LedgerDefs.
+From DS Require Import RunnerLib LedgerCore LedgerCoreProofs LedgerKll LedgerKllProofs LedgerTup LedgerTupProofs LedgerFi LedgerFiProofs LedgerReq LedgerReqProofs LedgerVo LedgerVoProofs LedgerHll LedgerHllProofs LedgerDefs.
 Import ListNotations.
 Local Open Scope Z_scope.
 
@@ -15,8 +15,9 @@ Definition ObjInv (o : obj) : Prop :=
   | OK s => KInv s (o_led o) /\ k_blk s <> None
   | OT s => TInv s (o_led o) /\ t_blk s <> None
   | OF s => FInv s (o_led o) /\ f_blk s <> None
-  | OQ s => QInv s /\ o_led o = q_ledger s
+  | OQ s => QInv s /\ o_led o = q_ledger s /\ q_comps s <> []
   | OV s => VInv s (o_led o) /\ v_blk s <> None
+  | OH s => HInv s (o_led o)
   end.
 
 Lemma judge_ok X L es L' : apply_all X L es = Some L' -> judge X L es = (L', false).
@@ -52,10 +53,26 @@ Lemma obj_new_req_ok p1 p2 e o bad : obj_new_req p1 p2 e = Some (o, bad) -> ObjI
 Proof.
   unfold obj_new_req. destruct ((p1 <? 4) || (255 <? p1) || Z.odd p1 || (p2 <? 0) || (1 <? p2)) eqn:Hc; [discriminate|].
   destruct (new_req (zN p1) (p2 =? 1) (map zN e)) as [s b] eqn:E.
-  assert (Hk : (1 <= zN p1)%N).
+  assert (Hk : (4 <= zN p1)%N).
   { repeat (apply orb_false_elim in Hc; destruct Hc as [Hc ?]). apply Z.ltb_ge in Hc. unfold zN. lia. }
-  destruct (new_req_ok _ _ _ s b Hk E) as [HQ ->]. intros E2; injection E2 as <- <-. split; auto.
+  destruct (new_req_ok _ _ _ s b Hk E) as [HQ ->]. pose proof (new_req_nonempty _ _ _ _ _ E). intros E2; injection E2 as <- <-. split; auto.
   unfold ObjInv, mkq. simpl. auto.
+Qed.
+
+Lemma obj_new_hll_ok u p1 p2 e o bad : obj_new_hll u p1 p2 e = Some (o, bad) -> ObjInv o /\ bad = false.
+Proof.
+  unfold obj_new_hll. destruct ((p1 <? 4) || (21 <? p1) || (p2 <? 0) || (2 <? p2)); [discriminate|].
+  destruct e as [|s0 [|s1 [|s2 [|s3 [|s4 [|s5 [|m [|k [|t [|c [|a e']]]]]]]]]]]; try discriminate.
+  destruct (hll_build u _ _) as [s es] eqn:E. destruct (build_ok [] _ _ _ _ _ E) as (L & HL & HI).
+  rewrite (judge_ok _ _ _ _ HL). intros E2; injection E2 as <- <-. split; auto.
+Qed.
+
+Lemma obj_result_ok u e o bad : ObjInv u -> obj_result u e = Some (o, bad) -> ObjInv o /\ bad = false.
+Proof.
+  unfold obj_result. destruct (o_st u) as [s|s|s|s|s|s]; try discriminate.
+  destruct e as [|m [|k [|t [|c [|a e']]]]]; try discriminate. destruct (h_union s); [|discriminate].
+  intros _. destruct (hll_build false _ _) as [s' es] eqn:E. destruct (build_ok (o_led u) _ _ _ _ _ E) as (L & HL & HI).
+  rewrite (judge_ok _ _ _ _ HL). intros E2; injection E2 as <- <-. split; auto.
 Qed.
 
 Lemma kll_update_blk s s' es : kll_update s = Some (s', es) -> k_blk s' <> None.
@@ -80,7 +97,6 @@ Qed.
 Definition update_aborts (o : obj) (v w : Z) (e : line) : Prop :=
   match o_st o, e with
   | OF s, h :: _ => fim_update s v (zN h) (zN w) = FAbort
-  | OQ s, _ => req_update s = None
   | _, _ => False
   end.
 
@@ -90,7 +106,7 @@ Lemma obj_update_ok o v w e : ObjInv o ->
   | URefused o' bad => ObjInv o' /\ (bad = false \/ update_aborts o v w e)
   end.
 Proof.
-  unfold ObjInv, obj_update, update_aborts. destruct (o_st o) as [s|s|s|s|s] eqn:Hs.
+  unfold ObjInv, obj_update, update_aborts. destruct (o_st o) as [s|s|s|s|s|s] eqn:Hs.
   - intros [HI Hnn]. destruct (kll_update s) as [[s' es]|] eqn:E.
     + destruct (kll_update_ok [] s _ s' es HI E) as (L' & HL' & HI').
       rewrite (judge_ok _ _ _ _ HL'). simpl. repeat split; auto. eapply kll_update_blk; eauto.
@@ -106,18 +122,21 @@ Proof.
     + destruct H as (L' & HL' & HI' & Hb'). rewrite (judge_ok _ _ _ _ HL'). simpl. repeat split; auto.
     + rewrite Hs. auto.
     + rewrite Hs. auto.
-  - intros [HQ HL]. destruct (req_update s) as [[s' bad]|] eqn:E.
-    + destruct (req_update_ok s s' bad HQ E) as [HQ' ->]. unfold mkq. simpl. auto.
-    + rewrite Hs. destruct e; auto.
+  - intros (HQ & HL & Hne). destruct (req_update s) as [[s' bad]|] eqn:E.
+    + destruct (req_update_ok s s' bad HQ E) as [HQ' ->]. pose proof (req_update_nonempty _ _ _ E). unfold mkq. simpl. auto.
+    + exfalso. exact (req_update_total s HQ Hne E).
   - intros [HI Hnn]. destruct (vo_update s (map zN e)) as [[s' es]|] eqn:E.
     + destruct (vo_update_ok [] s _ _ s' es HI E) as (L' & HL' & HI' & Hb').
       rewrite (judge_ok _ _ _ _ HL'). simpl. repeat split; auto.
     + rewrite Hs. auto.
+  - intros HI. destruct e as [|m [|k [|t [|c [|a e']]]]]; try (rewrite Hs; auto).
+    destruct (hll_reshape s _) as [s' es] eqn:E. destruct (reshape_ok [] s _ _ s' es HI E) as (L' & HL' & HI').
+    rewrite (judge_ok _ _ _ _ HL'). simpl. auto.
 Qed.
 
 Lemma obj_copy_ok o c bad : ObjInv o -> obj_copy o = Some (c, bad) -> ObjInv c /\ bad = false.
 Proof.
-  unfold ObjInv, obj_copy. destruct (o_st o) as [s|s|s|s|s] eqn:Hs.
+  unfold ObjInv, obj_copy. destruct (o_st o) as [s|s|s|s|s|s] eqn:Hs.
   - intros [HI Hnn]. destruct (kll_copy s) as [[s' es]|] eqn:E; [|discriminate].
     destruct (kll_copy_ok s _ s' es HI E) as (L' & HL' & HI').
     rewrite (judge_ok _ _ _ _ HL'). intros E2; injection E2 as <- <-. simpl. repeat split; auto.
@@ -129,33 +148,38 @@ Proof.
   - intros [HI Hnn]. destruct (fim_copy s) as [[s' es]|] eqn:E; [|discriminate].
     destruct (fim_copy_ok s _ s' es HI E) as (L' & HL' & HI' & Hb').
     rewrite (judge_ok _ _ _ _ HL'). intros E2; injection E2 as <- <-. simpl. repeat split; auto.
-  - intros [HQ HL]. destruct (req_copy s) as [s' b] eqn:E. destruct (req_copy_ok s s' b HQ E) as [HQ' ->].
-    intros E2; injection E2 as <- <-. unfold mkq. simpl. auto.
+  - intros (HQ & HL & Hne). destruct (req_copy s) as [s' b] eqn:E. destruct (req_copy_ok s s' b HQ E) as [HQ' ->].
+    pose proof (req_copy_nonempty _ _ _ Hne E). intros E2; injection E2 as <- <-. unfold mkq. simpl. auto.
   - intros [HI Hnn]. destruct (vo_copy s) as [[s' es]|] eqn:E; [|discriminate].
     destruct (vo_copy_ok s _ s' es HI E) as (L' & HL' & HI' & Hb').
     rewrite (judge_ok _ _ _ _ HL'). intros E2; injection E2 as <- <-. simpl. repeat split; auto.
+  - intros HI. destruct (hll_copy s) as [s' es] eqn:E. unfold hll_copy in E.
+    destruct (build_ok (o_led o) _ _ _ _ _ E) as (L' & HL' & HI').
+    rewrite (judge_ok _ _ _ _ HL'). intros E2; injection E2 as <- <-. simpl. auto.
 Qed.
 
 (* the destructor: accepted, and nothing is left in the object's ledger *)
 Lemma obj_destroy_ok o : ObjInv o -> obj_destroy o = false.
 Proof.
-  unfold ObjInv, obj_destroy. destruct (o_st o) as [s|s|s|s|s].
+  unfold ObjInv, obj_destroy. destruct (o_st o) as [s|s|s|s|s|s].
   - intros [HI _]. rewrite (judge_ok _ _ _ _ (kll_destroy_ok [] s _ HI)). reflexivity.
   - intros [HI _]. rewrite (judge_ok _ _ _ _ (tup_destroy_ok [] s _ HI)). reflexivity.
   - intros [HI _]. rewrite (judge_ok _ _ _ _ (fim_destroy_ok [] s _ HI)). reflexivity.
-  - intros [HQ _]. now apply req_destroy_ok.
+  - intros (HQ & _). now apply req_destroy_ok.
   - intros [HI _]. rewrite (judge_ok _ _ _ _ (vo_destroy_ok [] s _ HI)). reflexivity.
+  - intros HI. rewrite (judge_ok _ _ _ _ (hll_destroy_ok [] s _ HI)). reflexivity.
 Qed.
 
 (* a moved-from object owns nothing: destroying it touches nothing *)
 Lemma obj_destroy_moved_from o : obj_destroy (obj_moved_from o) = false.
 Proof.
-  unfold obj_destroy, obj_moved_from. destruct (o_st o) as [s|s|s|s|s]; simpl.
+  unfold obj_destroy, obj_moved_from. destruct (o_st o) as [s|s|s|s|s|s]; simpl.
   - unfold kll_destroy. simpl. reflexivity.
   - unfold tup_destroy. simpl. reflexivity.
   - unfold fim_destroy. simpl. reflexivity.
   - reflexivity.
   - unfold vo_destroy. simpl. reflexivity.
+  - unfold hll_destroy. simpl. reflexivity.
 Qed.
 
 Lemma obj_copy_assign_ok r s o' bad : ObjInv r -> ObjInv s -> obj_copy_assign r s = Some (o', bad) -> ObjInv o' /\ bad = false.
@@ -166,9 +190,9 @@ Proof.
   intros E2; injection E2 as <- <-. auto.
 Qed.
 
-Lemma obj_reset_ok o o' bad : ObjInv o -> obj_reset o = Some (o', bad) -> ObjInv o' /\ bad = false.
+Lemma obj_reset_ok o e o' bad : ObjInv o -> obj_reset o e = Some (o', bad) -> ObjInv o' /\ bad = false.
 Proof.
-  unfold ObjInv, obj_reset. destruct (o_st o) as [s|s|s|s|s]; try discriminate.
+  unfold ObjInv, obj_reset. destruct (o_st o) as [s|s|s|s|s|s]; try discriminate.
   - intros [HI Hnn]. destruct (tup_reset s) as [[s' es]|] eqn:E; [|discriminate].
     destruct (tup_reset_ok [] s _ s' es HI E) as (L' & HL' & HI').
     rewrite (judge_ok _ _ _ _ HL'). intros E2; injection E2 as <- <-. simpl. repeat split; auto.
@@ -177,11 +201,14 @@ Proof.
   - intros [HI Hnn]. destruct (vo_reset s) as [[s' es]|] eqn:E; [|discriminate].
     destruct (vo_reset_ok [] s _ s' es HI E) as (L' & HL' & HI' & Hb').
     rewrite (judge_ok _ _ _ _ HL'). intros E2; injection E2 as <- <-. simpl. repeat split; auto.
+  - intros HI. destruct e as [|m [|k [|t [|c [|a e']]]]]; try discriminate.
+    destruct (hll_reshape s _) as [s' es] eqn:E. destruct (reshape_ok [] s _ _ s' es HI E) as (L' & HL' & HI').
+    rewrite (judge_ok _ _ _ _ HL'). intros E2; injection E2 as <- <-. simpl. auto.
 Qed.
 
 Lemma obj_trim_ok o o' bad : ObjInv o -> obj_trim o = Some (o', bad) -> ObjInv o' /\ bad = false.
 Proof.
-  unfold ObjInv, obj_trim. destruct (o_st o) as [s|s|s|s|s]; try tauto; try discriminate.
+  unfold ObjInv, obj_trim. destruct (o_st o) as [s|s|s|s|s|s]; try tauto; try discriminate.
   intros [HI Hnn]. destruct (tup_trim s) as [[s' es]|] eqn:E; [|discriminate].
   destruct (tup_trim_ok [] s _ s' es HI E) as (L' & HL' & HI').
   rewrite (judge_ok _ _ _ _ HL'). intros E2; injection E2 as <- <-. simpl. repeat split; auto.
@@ -222,18 +249,17 @@ Definition merge_aborts (r s : obj) : Prop :=
   match o_st r, o_st s with
   | OK a, OK b => snd (kll_merge a b) = Abort
   | OF a, OF b => snd (fim_merge a b) = true
-  | OQ a, OQ b => req_merge a b = None
   | _, _ => False
   end.
 
-Lemma obj_merge_ok r s u : ObjInv r -> ObjInv s -> obj_merge r s = Some u ->
+Lemma obj_merge_ok r s e u : ObjInv r -> ObjInv s -> obj_merge r s e = Some u ->
   match u with
   | UDone o' bad => ObjInv o' /\ bad = false
   | URefused o' bad => ObjInv o' /\ (bad = false \/ merge_aborts r s)
   end.
 Proof.
   unfold ObjInv, obj_merge, merge_aborts.
-  destruct (o_st r) as [a|a|a|a|a] eqn:Hr; destruct (o_st s) as [b|b|b|b|b] eqn:Hs; try discriminate.
+  destruct (o_st r) as [a|a|a|a|a|a] eqn:Hr; destruct (o_st s) as [b|b|b|b|b|b] eqn:Hs; try discriminate.
   - intros [HIa Hna] [HIb Hnb].
     destruct (kll_merge a b) as [[a' es] oc] eqn:E.
     destruct (kll_merge_ok a b _ _ a' es oc HIa HIb Hna E) as (L' & HL' & HI').
@@ -244,22 +270,30 @@ Proof.
     destruct (fim_merge_ok a b _ _ a' es ok ab HIa HIb Hna E) as (L' & HL' & HI' & Hb').
     rewrite (judge_ok _ _ _ _ HL'). intros E2; injection E2 as <-.
     destruct ok; simpl; repeat split; auto. destruct ab; auto.
-  - intros [HQa HLa] [HQb HLb]. destruct (req_merge a b) as [[a' bad]|] eqn:E.
-    + destruct (req_merge_ok a b a' bad HQa HQb E) as [HQ' ->]. intros E2; injection E2 as <-. unfold mkq. simpl. auto.
-    + destruct (Bool.eqb (q_hra a) (q_hra b)); [|discriminate]. intros E2; injection E2 as <-. rewrite Hr. auto.
+  - intros (HQa & HLa & Hna) (HQb & HLb & Hnb). destruct (req_merge a b) as [[a' bad]|] eqn:E.
+    + destruct (req_merge_ok a b a' bad HQa HQb E) as [HQ' ->]. pose proof (req_merge_nonempty _ _ _ _ Hna E).
+      intros E2; injection E2 as <-. unfold mkq. simpl. auto.
+    + destruct (Bool.eqb (q_hra a) (q_hra b)) eqn:Hh; [|discriminate]. apply Bool.eqb_prop in Hh.
+      exfalso. exact (req_merge_total a b HQa HQb Hh E).
+  - intros HIa HIb. destruct (h_union a && negb (h_union b)); [|discriminate].
+    destruct e as [|m [|k [|t [|c [|x e']]]]]; try discriminate.
+    destruct (hll_reshape a _) as [a' es] eqn:E. destruct (reshape_ok (o_led s) a _ _ a' es HIa E) as (L' & HL' & HI').
+    rewrite (judge_ok _ _ _ _ HL'). intros E2; injection E2 as <-. simpl. auto.
 Qed.
 
 (* ---- every object reachable by any history ---- *)
 Inductive reach : obj -> Prop :=
 | R_new kind p1 p2 o bad : obj_new kind p1 p2 = Some (o, bad) -> reach o
 | R_new_req p1 p2 e o bad : obj_new_req p1 p2 e = Some (o, bad) -> reach o
+| R_new_hll u p1 p2 e o bad : obj_new_hll u p1 p2 e = Some (o, bad) -> reach o
+| R_result u e o bad : reach u -> obj_result u e = Some (o, bad) -> reach o
 | R_update o v w e o' bad : reach o -> obj_update o v w e = UDone o' bad -> reach o'
 | R_update_refused o v w e o' bad : reach o -> obj_update o v w e = URefused o' bad -> reach o'
 | R_copy o c bad : reach o -> obj_copy o = Some (c, bad) -> reach c
 | R_copy_assign r s o' bad : reach r -> reach s -> obj_copy_assign r s = Some (o', bad) -> reach o'
-| R_merge r s o' bad : reach r -> reach s -> obj_merge r s = Some (UDone o' bad) -> reach o'
-| R_merge_refused r s o' bad : reach r -> reach s -> obj_merge r s = Some (URefused o' bad) -> reach o'
-| R_reset o o' bad : reach o -> obj_reset o = Some (o', bad) -> reach o'
+| R_merge r s e o' bad : reach r -> reach s -> obj_merge r s e = Some (UDone o' bad) -> reach o'
+| R_merge_refused r s e o' bad : reach r -> reach s -> obj_merge r s e = Some (URefused o' bad) -> reach o'
+| R_reset o e o' bad : reach o -> obj_reset o e = Some (o', bad) -> reach o'
 | R_trim o o' bad : reach o -> obj_trim o = Some (o', bad) -> reach o'.
 
 Theorem reach_inv o : reach o -> ObjInv o.
@@ -267,31 +301,34 @@ Proof.
   induction 1.
   - eapply (obj_new_ok kind p1 p2); eauto.
   - eapply (obj_new_req_ok p1 p2 e); eauto.
+  - eapply (obj_new_hll_ok u p1 p2 e); eauto.
+  - eapply (obj_result_ok u e); eauto.
   - pose proof (obj_update_ok o v w e IHreach) as H1. rewrite H0 in H1. tauto.
   - pose proof (obj_update_ok o v w e IHreach) as H1. rewrite H0 in H1. tauto.
   - eapply (obj_copy_ok o); eauto.
   - eapply (obj_copy_assign_ok r s); eauto.
-  - pose proof (obj_merge_ok r s _ IHreach1 IHreach2 H1) as H2. simpl in H2. tauto.
-  - pose proof (obj_merge_ok r s _ IHreach1 IHreach2 H1) as H2. simpl in H2. tauto.
-  - eapply (obj_reset_ok o); eauto.
+  - pose proof (obj_merge_ok r s e _ IHreach1 IHreach2 H1) as H2. simpl in H2. tauto.
+  - pose proof (obj_merge_ok r s e _ IHreach1 IHreach2 H1) as H2. simpl in H2. tauto.
+  - eapply (obj_reset_ok o e); eauto.
   - eapply (obj_trim_ok o); eauto.
 Qed.
 
 (* what is alive at rest: exactly the retained items, in a buffer of exactly the capacity the object records *)
 Definition capacity_of (o : obj) : N :=
-  match o_st o with OK s => k_cap s | OT s => t_size s | OF s => f_size s | OQ s => sum_cap (q_comps s) | OV s => v_alloc s end.
+  match o_st o with OK s => k_cap s | OT s => t_size s | OF s => f_size s | OQ s => sum_cap (q_comps s) | OV s => v_alloc s | OH s => hll_bytes s end.
 
 (* constructed slots of the item buffer: retained items (KLL), retained entries (theta/tuple), slots with states_ > 0 (fi) *)
 Definition constructed_of (o : obj) : N :=
   match o_st o with OK s => k_retained s | OT s => t_num s | OF s => count_active (f_slots s) | OQ s => sum_num (q_comps s)
-                   | OV s => (v_retained s + (if (0 <? v_r s) && v_gapc s then 1 else 0))%N end.
+                   | OV s => (v_retained s + (if (0 <? v_r s) && v_gapc s then 1 else 0))%N | OH _ => 0%N end.
 
 Lemma inv_live o : ObjInv o -> live_slots (o_led o) = constructed_of o /\ item_slots (o_led o) = capacity_of o.
 Proof.
-  unfold ObjInv, constructed_of, capacity_of. destruct (o_st o) as [s|s|s|s|s].
+  unfold ObjInv, constructed_of, capacity_of. destruct (o_st o) as [s|s|s|s|s|s].
   - intros [HI Hnn]. destruct (k_blk s) as [b|] eqn:Hb; [|congruence]. eapply kll_live; eauto.
   - intros [HI Hnn]. apply tup_live; auto.
   - intros [HI Hnn]. destruct (f_blk s) as [[[kb vb] sb]|] eqn:Hb; [|congruence]. eapply fim_live; eauto.
-  - intros [HQ ->]. split; [now apply req_live|now apply req_caps].
+  - intros (HQ & -> & _). split; [now apply req_live|now apply req_caps].
   - intros [HI Hnn]. destruct (v_blk s) as [b|] eqn:Hb; [|congruence]. eapply vo_live; eauto.
+  - intros HI. now apply hll_live.
 Qed.
